@@ -46,6 +46,8 @@ class C17Generic1D(Harness):
         for bad in ("scalar", "string", "ragged", "weights_short", "weights_2d_for_1d", "none_with_bins", "dict"):
             yield f"c1d-bad-{bad}", dict(form="list", weights="none", bad=bad)
         yield "c1d-nan-dropna-off", dict(form="list", weights="none", bad="nan_no_dropna")
+        yield "c1d-nan-dropna-off-range", dict(form="list", weights="none", bad="nan_no_dropna_range")
+        yield "c1d-nan-dropna-off-range-int", dict(form="tuple", weights="none", bad="nan_no_dropna_range_int")
         for nm in ("int7", "int0", "tuple"):
             yield f"c1d-named-{nm}", dict(form="named_list", weights="none", bad=None, name=nm)
         # infinite entries are not NaN: they are kept (as overflow / underflow) together with their weights
@@ -85,7 +87,8 @@ class C17Generic1D(Harness):
         bad = p["bad"]
         if bad:
             args = {"scalar": (5,), "string": ("abc",), "ragged": ([[x["v"][0], x["v"][1]], [x["v"][0]]],), "dict": ({"a": 1},), "none_with_bins": (None,),
-                    "weights_short": (list(x["v"]),), "weights_2d_for_1d": (list(x["v"]),), "nan_no_dropna": (list(x["v"]),)}[bad]
+                    "weights_short": (list(x["v"]),), "weights_2d_for_1d": (list(x["v"]),), "nan_no_dropna": (list(x["v"]),),
+                    "nan_no_dropna_range": (list(x["v"]),), "nan_no_dropna_range_int": (tuple(x["v"]),)}[bad]
             kw = {}
             if bad == "weights_short":
                 kw["weights"] = [1, 2, 3]
@@ -93,6 +96,11 @@ class C17Generic1D(Harness):
                 kw["weights"] = [[1], [3]]
             if bad == "nan_no_dropna":
                 kw["dropna"] = False
+            if bad == "nan_no_dropna_range":
+                kw.update(dropna=False, range=(x["e"][0], x["e"][-1]))
+            if bad == "nan_no_dropna_range_int":
+                r = E.attempt(h1, args[0], 2, dropna=False, range=(x["e"][0], x["e"][-1]))
+                return {"res": {"raised": r} if isinstance(r, Raised) else full(E, r)}
             r = E.attempt(h1, args[0], edges, **kw)
             return {"res": {"raised": r} if isinstance(r, Raised) else full(E, r)}
         vals = list(x["v"]) if p["form"] != "range_like" else [0.0, 1.0]
@@ -117,7 +125,7 @@ class C17Generic1D(Harness):
         if bad == "none_with_bins":
             yield "none_gives_empty_histogram", "raised" not in obs["res"] and z3.And([cx.eq(v, 0) for v in obs["res"]["freq"]]) is not None
             return
-        if bad == "nan_no_dropna":
+        if bad in ("nan_no_dropna", "nan_no_dropna_range", "nan_no_dropna_range_int"):
             anynan = z3.Or([cx.isnan(v) for v in x["v"]])
             yield "nan_without_dropna_refused", z3.BoolVal("raised" in obs["res"]) == anynan
             return
@@ -164,7 +172,7 @@ class C17GenericND(Harness):
         for form in FORMS_ND:
             for wk in ("none", "list"):
                 yield f"cnd-{form}-w{wk}", dict(form=form, weights=wk, bad=None)
-        for bad in ("one_dim", "unequal_columns", "weights_len", "ragged_rows", "axis_names_len", "h3_four_columns", "h2_dim_three_columns", "h_dim_too_small"):
+        for bad in ("one_dim", "unequal_columns", "weights_len", "ragged_rows", "axis_names_len", "h3_four_columns", "h2_dim_three_columns", "h_dim_too_small", "h2_second_none", "h2_first_none"):
             yield f"cnd-bad-{bad}", dict(form="list_of_rows", weights="none", bad=bad)
         yield "cnd-named-columns", dict(form="h2_named", weights="none", bad=None)
         for form in ("h3_named", "h3_lists_explicit_names", "h2_named_explicit_names", "h2_lists_explicit_names", "rows_explicit_names"):
@@ -194,6 +202,10 @@ class C17GenericND(Harness):
                 r = E.attempt(fac.h2, [rows[0][0], rows[1][0]], [rows[0][1]], bins)
             elif bad == "weights_len":
                 r = E.attempt(fac.h, arr, bins, weights=[1, 2, 3])
+            elif bad == "h2_second_none":
+                r = E.attempt(fac.h2, [rows[0][0], rows[1][0]], None, bins)
+            elif bad == "h2_first_none":
+                r = E.attempt(fac.h2, None, [rows[0][1], rows[1][1]], bins)
             elif bad == "h3_four_columns":
                 r = E.attempt(fac.h3, np.asarray([[rows[0][0], rows[0][1], rows[1][0], rows[1][1]]], dtype=float), [np.asarray([0.0, 1.0])] * 3)
             elif bad == "h2_dim_three_columns":
